@@ -227,4 +227,23 @@ def check_model_restriction(patterns, seeds, shapes=((4, 6, 8), (2, 4, 2))):
                                 return dict(reproduced=True, cases=cases, clause='coarse parameter == sum of fine-cell children', sc_dir=sc,
                                             case=case, mu_r=mu, parameter=nm, shape=shape, seed=seed,
                                             how='contracts.c04_concrete.check_model_restriction: emg3d.solver.restriction on a VolumeModel')
+        # the sum of the children does not depend on how the parameter array lies in memory: Fortran-ordered, C-ordered, strided view
+        rng = np.random.default_rng(7)
+        for shape in ((4, 6, 8), (8, 4, 4)):
+            base = rng.standard_normal((2 * shape[0], shape[1], shape[2])) + 1j * rng.standard_normal((2 * shape[0], shape[1], shape[2]))
+            layouts = (('Fortran-ordered', np.asfortranarray(base[::2])), ('C-ordered', np.ascontiguousarray(base[::2])), ('strided view', base[::2]))
+            for lname, param in layouts:
+                cases += 1
+                want = param
+                for k in range(3):
+                    if co[k]:
+                        sl0 = [slice(None)] * 3
+                        sl1 = [slice(None)] * 3
+                        sl0[k] = slice(0, None, 2)
+                        sl1[k] = slice(1, None, 2)
+                        want = want[tuple(sl0)] + want[tuple(sl1)]
+                got = solver._restrict_model_parameters(param, sc)
+                if got.shape != want.shape or np.abs(got - want).max() > 1e-12 * np.abs(want).max():
+                    return dict(reproduced=True, cases=cases, clause='coarse parameter == sum of fine-cell children, whatever the memory layout of the parameter array', sc_dir=sc,
+                                layout=lname, shape=shape, how='contracts.c04_concrete.check_model_restriction: emg3d.solver._restrict_model_parameters(param, sc_dir)')
     return dict(reproduced=False, cases=cases)
